@@ -64,8 +64,6 @@ impl<K, V> Clone for HashMap<K, V> {
 } // mod im
 
 // ---- A-std4: specifications assumed for std functions that vstd does not cover ----------------------
-pub assume_specification<T, E>[ Result::<T, E>::unwrap_or ](r: Result<T, E>, d: T) -> (o: T)
-    ensures o == (match r { Ok(v) => v, Err(_) => d });
 pub assume_specification<'a, T: Copy>[ Option::<&'a T>::copied ](o: Option<&'a T>) -> (r: Option<T>)
     ensures r == (match o { Some(v) => Some(*v), None => None });
 
@@ -80,8 +78,8 @@ pub broadcast axiom fn axiom_ext_items_slice<'a, T: Copy>(s: &'a [T])
 /// (stated for predicates whose result is determined by their contract)
 pub assume_specification<T, A: std::alloc::Allocator, F: FnMut(&T) -> bool>[ Vec::<T, A>::retain ](v: &mut Vec<T, A>, f: F)
     requires
-        forall|i: int| 0 <= i < old(v)@.len() ==> f.requires((&#[trigger] old(v)@[i],)),
-        forall|i: int| 0 <= i < old(v)@.len() ==> !(f.ensures((&#[trigger] old(v)@[i],), true) && f.ensures((&old(v)@[i],), false)),
+        forall|i: int| #![trigger old(v)@[i]] 0 <= i < old(v)@.len() ==> f.requires((&old(v)@[i],)),
+        forall|i: int| #![trigger old(v)@[i]] 0 <= i < old(v)@.len() ==> !(f.ensures((&old(v)@[i],), true) && f.ensures((&old(v)@[i],), false)),
     ensures final(v)@ == old(v)@.filter(|x: T| f.ensures((&x,), true));
 
 // ---- A-iter additions (belong into env/seqiter.vs) ---------------------------------------------------
@@ -91,8 +89,8 @@ impl<T> SeqIter<T> {
     #[verifier::external_body]
     pub fn filter<F: FnMut(&T) -> bool>(self, f: F) -> (r: SeqIter<T>)
         requires
-            forall|i: int| 0 <= i < self@.len() ==> f.requires((&#[trigger] self@[i],)),
-            forall|i: int| 0 <= i < self@.len() ==> !(f.ensures((&#[trigger] self@[i],), true) && f.ensures((&self@[i],), false)),
+            forall|i: int| #![trigger self@[i]] 0 <= i < self@.len() ==> f.requires((&self@[i],)),
+            forall|i: int| #![trigger self@[i]] 0 <= i < self@.len() ==> !(f.ensures((&self@[i],), true) && f.ensures((&self@[i],), false)),
         ensures r@ == self@.filter(|x: T| f.ensures((&x,), true)),
     { unimplemented!() }
 }
